@@ -600,6 +600,59 @@ def r5_renderer_boundaries(ctx):
         ctx.ok("no-span-arithmetic-outside-scanner", "src", "%d bodies outside scanner/parser: spans are only copied and compared" % m)
 
 
+def r3b_parser_spans_are_ordered(ctx):
+    """The parser only combines spans: start of one, end of another.  Tokens are consumed left to right, so the span whose
+    start is used must have been obtained no later than the span whose end is used - otherwise start > end, and the renderer
+    (which slices the source with it) panics."""
+    def src_blocks(fn, op, now, depth=0):
+        pl = (op.get("move") or op.get("copy")) if isinstance(op, dict) else None
+        if pl is None:
+            return None
+        root = pl["l"]
+        if 0 < root <= fn.argc:
+            # a by-value parameter is fixed at entry; a read through &mut self happens where it is written
+            return {0} if all(e != "*" for e in pl["p"]) else {now}
+        defs = fn.whole_defs(root)
+        if not defs:
+            return None
+        out = set()
+        for (b, k, st) in defs:
+            if k != "t" and st["rv"]["k"] == "use" and depth < 6:
+                r = src_blocks(fn, st["rv"]["a"], b, depth + 1)
+                out |= (r if r is not None else {b})
+            else:
+                out.add(b)
+        return out
+    n = 0
+    for fn in [f for f in ctx.lib.fns.values() if f.file == "src/syntax/parser.rs" and "Parser" in f.id]:
+        for b in sorted(fn.live):
+            for st in fn.blocks[b]["s"]:
+                rv = st["rv"]
+                if not (rv["k"] == "agg" and str(rv.get("adt", "")).endswith("Range") and len(rv["ops"]) == 2):
+                    continue
+                n += 1
+                ctx.touch(fn)
+                A = src_blocks(fn, rv["ops"][0], b)
+                B = src_blocks(fn, rv["ops"][1], b)
+                short = fn.id.split("::")[-1]
+                txt = "%s..%s" % (sh(ne(fn.expr(rv["ops"][0], 3)))[:30], sh(ne(fn.expr(rv["ops"][1], 3)))[:30])
+                ordn = sum(1 for r in ctx.records if r["rule"] == ctx.rule and r["instance"].startswith("span-order|%s#" % short))
+                if A is None or B is None:
+                    ctx.bad("span-order|%s|unknown|%s" % (short, txt), fn.where(b), "cannot see where the bounds of the span `%s` come from" % txt)
+                elif all(any(fn.dominates(a, bb) for a in A) for bb in B):
+                    ctx.ok("span-order|%s#%d" % (short, ordn + 1), fn.where(b), "%s: start obtained no later than end" % txt)
+                else:
+                    ctx.bad("span-order|%s|%s" % (short, re.sub(r"\s+", "", txt)), fn.where(b), "%s builds the span `%s` with a start that was read from the token stream after its end: for every input that reaches this diagnostic start > end, and rendering it slices the source with an inverted range (panic)" % (short, txt))
+    ctx.floor("spans built in the parser", n, 40)
+
+
+def r9_bitset_indexes_agree(ctx):
+    """Static checking indexes its liveness bit sets with (index / W, index % W); a helper with another W reaches past the last
+    word for locals beyond its own width and panics inside the resolver on a valid program (shared with C03-R4d)."""
+    from .c03 import r4d_bitset_arithmetic_agrees
+    r4d_bitset_arithmetic_agrees(ctx)
+
+
 BUMPERS_SEED = {"syntax::parser::Parser::bump"}
 
 
@@ -699,7 +752,7 @@ def r8_local_ranges_cover_ids(ctx):
 
 
 RULES = [("C07-R1", r1_cursor_discipline), ("C07-R2", r2_unchecked_reslicing), ("C07-R2b", r2b_byte_reads_in_bounds), ("C07-R5", r5_renderer_boundaries),
-         ("C07-R3", r3_parser_position_free), ("C07-R4", r4_recovery_progress), ("C07-R8", r8_local_ranges_cover_ids)]
+         ("C07-R3", r3_parser_position_free), ("C07-R3b", r3b_parser_spans_are_ordered), ("C07-R4", r4_recovery_progress), ("C07-R8", r8_local_ranges_cover_ids), ("C07-R9", r9_bitset_indexes_agree)]
 
 EXPLANATION = (
     "R1 cursor discipline: every write to Lexer.pos is classified by the shape of its right-hand side and must carry its "
@@ -712,6 +765,9 @@ EXPLANATION = (
     "(least fixpoint of token-consuming functions). R8: per-function local-id ranges cover every id allocated for the "
     "function although ids of nested functions interleave. Decides mechanism integrity on every path of the scanner/parser; "
     "does not decide that spans are ordered and inside the text for every input, renderer arithmetic, or termination in general."
+)
+EXPLANATION += (
+    " R3b: every span built in the parser takes its start from a span obtained no later (dominance of the reads) than the one it takes its end from. R9 (= C03-R4d): the liveness bit-set helpers agree on the word width."
 )
 ASSUMPTIONS = ["the input is a &str (valid UTF-8)", "memchr2 returns an index <= haystack length"]
 TRUSTED = ["rustc nightly MIR", "nsx exporter", "nsverif expression reconstruction / staleness computation"]
